@@ -21,7 +21,37 @@ func init() {
 }
 
 func c19Roots(w *World) []*ssa.Function {
-	return []*ssa.Function{w.Fn(nParse), w.Fn(nDispatch), w.Fn("(*getoptions.GetOpt).Help"), w.Fn(nParseCLI)}
+	roots := []*ssa.Function{w.Fn(nParse), w.Fn(nDispatch), w.Fn("(*getoptions.GetOpt).Help"), w.Fn(nParseCLI)}
+	// command functions of the library itself (the built-in help command): Dispatch runs them through the same
+	// dynamic call that runs the user's functions, which the reachability cuts off
+	seen := map[*ssa.Function]bool{}
+	for _, fn := range w.Funcs {
+		if w.PkgOfFn(fn) == nil {
+			continue
+		}
+		eachInstr(fn, func(in ssa.Instruction) {
+			var ops []*ssa.Value
+			ops = in.Operands(ops)
+			for i, op := range ops {
+				if op == nil || *op == nil {
+					continue
+				}
+				if c, ok := in.(ssa.CallInstruction); ok && i == 0 && !c.Common().IsInvoke() && c.Common().Value == *op {
+					continue // the callee position of a call
+				}
+				f, ok := (*op).(*ssa.Function)
+				if !ok || w.PkgOfFn(f) == nil || f.Blocks == nil || seen[f] || f.Parent() != nil {
+					continue
+				}
+				sg := f.Signature
+				if sg.Params().Len() == 3 && sg.Results().Len() == 1 && typeString(sg.Params().At(0).Type()) == "context.Context" && strings.HasSuffix(typeString(sg.Params().At(1).Type()), "getoptions.GetOpt") {
+					seen[f] = true
+					roots = append(roots, f)
+				}
+			}
+		})
+	}
+	return roots
 }
 
 // lenOf: v is len(x); returns x.
@@ -198,6 +228,26 @@ func classifyPanicSite(w *World, fn *ssa.Function, in ssa.Instruction, groups ma
 				lk, commaOK = l2, true
 			}
 		}
+		if phi, ok := x.X.(*ssa.Phi); ok && lk == nil {
+			// a cursor that is advanced by map lookups (node = node.children[key]): every lookup that can flow into
+			// the dereferenced value needs its own discharge, or the merged value is tested against nil
+			if _, isPtr := phi.Type().Underlying().(*types.Pointer); !isPtr {
+				return "", "", ""
+			}
+			for _, f := range factsAt(x.Block()) {
+				if f.Op == token.NEQ && f.Y != nil && (f.X == x.X && isNilConst(f.Y) || f.Y == x.X && isNilConst(f.X)) {
+					return "map-value-deref", "GM2", "dereferenced under value != nil"
+				}
+			}
+			n, bad := lookupEdges(phi, map[*ssa.Phi]bool{})
+			if n == 0 {
+				return "", "", ""
+			}
+			if bad != nil {
+				return "map-value-deref", "", "field of a value that may come from a map lookup with a missing key (nil pointer): " + bad.String()
+			}
+			return "map-value-deref", "GM1-3", "every lookup flowing into the value is discharged on its own edge (ok tested, value != nil, or key of the same map)"
+		}
 		if lk == nil {
 			return "", "", ""
 		}
@@ -221,6 +271,66 @@ func classifyPanicSite(w *World, fn *ssa.Function, in ssa.Instruction, groups ma
 		return classifySlice(w, fn, x, nonEmpty)
 	}
 	return "", "", ""
+}
+
+// lookupEdges walks the edges of a pointer-typed phi: n = number of map lookups that flow in, bad = one that is not
+// discharged on its edge (GM1: comma-ok tested true at the predecessor, GM2: value != nil there, GM3: key of the same map).
+func lookupEdges(phi *ssa.Phi, seen map[*ssa.Phi]bool) (n int, bad *ssa.Lookup) {
+	if seen[phi] {
+		return 0, nil
+	}
+	seen[phi] = true
+	for i, e := range phi.Edges {
+		pred := phi.Block().Preds[i]
+		var lk *ssa.Lookup
+		commaOK := false
+		switch v := e.(type) {
+		case *ssa.Phi:
+			n2, b2 := lookupEdges(v, seen)
+			n += n2
+			if b2 != nil && bad == nil {
+				// the inner phi's value may still be tested on the way here
+				ok := false
+				for _, f := range factsAt(pred) {
+					if f.Op == token.NEQ && f.Y != nil && (f.X == e && isNilConst(f.Y) || f.Y == e && isNilConst(f.X)) {
+						ok = true
+					}
+				}
+				if !ok {
+					bad = b2
+				}
+			}
+			continue
+		case *ssa.Lookup:
+			lk = v
+		case *ssa.Extract:
+			if l2, ok := v.Tuple.(*ssa.Lookup); ok && v.Index == 0 {
+				lk, commaOK = l2, true
+			}
+		}
+		if lk == nil {
+			continue
+		}
+		if _, isMap := lk.X.Type().Underlying().(*types.Map); !isMap {
+			continue
+		}
+		n++
+		ok := keyOfSameMap(lk.Index, lk.X, map[ssa.Value]bool{})
+		for _, f := range factsAt(pred) {
+			if commaOK && f.Op == token.ILLEGAL && f.Truth {
+				if ex, isEx := f.X.(*ssa.Extract); isEx && ex.Index == 1 && ex.Tuple == ssa.Value(lk) {
+					ok = true
+				}
+			}
+			if f.Op == token.NEQ && f.Y != nil && (f.X == e && isNilConst(f.Y) || f.Y == e && isNilConst(f.X)) {
+				ok = true
+			}
+		}
+		if !ok && bad == nil {
+			bad = lk
+		}
+	}
+	return n, bad
 }
 
 // classifyMapValueDeref: GM guard rules for `m[k].f` where m maps to pointers.
@@ -1137,6 +1247,12 @@ func (w *World) nonNegValue(v ssa.Value, depth int, seen map[ssa.Value]bool) boo
 				}
 			}
 			return true
+		case *ssa.FieldAddr:
+			// a field of a local struct variable (state gathered in a small struct): every store into that field
+			// of the variable - directly, or by copying another local struct of the same type - is non-negative
+			if al, ok := a.X.(*ssa.Alloc); ok {
+				return w.localFieldNonNeg(al, a.Field, depth+1, seen, map[*ssa.Alloc]bool{})
+			}
 		case *ssa.FreeVar:
 			// captured local: all stores in the enclosing function and its literals
 			fn := a.Parent()
@@ -1182,6 +1298,66 @@ func (w *World) nonNegValue(v ssa.Value, depth int, seen map[ssa.Value]bool) boo
 		return ok && n > 0
 	}
 	return false
+}
+
+// localFieldNonNeg: field #idx of the local struct variable al only ever holds non-negative values. The variable must
+// not escape: its address is used only for field addressing, whole loads and whole stores.
+func (w *World) localFieldNonNeg(al *ssa.Alloc, idx int, depth int, seen map[ssa.Value]bool, seenAl map[*ssa.Alloc]bool) bool {
+	if seenAl[al] {
+		return true
+	}
+	seenAl[al] = true
+	if al.Referrers() == nil {
+		return false
+	}
+	for _, ref := range *al.Referrers() {
+		switch x := ref.(type) {
+		case *ssa.DebugRef:
+		case *ssa.UnOp:
+			if x.Op != token.MUL {
+				return false
+			}
+		case *ssa.Store:
+			if x.Addr != ssa.Value(al) {
+				return false // the address itself is stored somewhere
+			}
+			switch v := x.Val.(type) {
+			case *ssa.UnOp:
+				src, ok := v.X.(*ssa.Alloc)
+				if !ok || v.Op != token.MUL || !w.localFieldNonNeg(src, idx, depth+1, seen, seenAl) {
+					return false
+				}
+			case *ssa.Const: // zero value
+			default:
+				return false
+			}
+		case *ssa.FieldAddr:
+			if x.Field != idx {
+				continue
+			}
+			if x.Referrers() == nil {
+				continue
+			}
+			for _, r2 := range *x.Referrers() {
+				switch y := r2.(type) {
+				case *ssa.Store:
+					if y.Addr != ssa.Value(x) || !w.nonNegValue(y.Val, depth+1, seen) {
+						return false
+					}
+				case *ssa.UnOp:
+					if y.Op != token.MUL {
+						return false
+					}
+				case *ssa.DebugRef:
+				default:
+					return false
+				}
+			}
+		default:
+			return false
+		}
+	}
+	return true
 }
 
 // R19.8
